@@ -599,3 +599,69 @@ Proof.
   destruct (step s j) as [s'|] eqn:E; [|apply IH, T].
   destruct (step_total _ _ _ _ T E) as (W' & Hlt & T'). specialize (IH _ _ T'). lia.
 Qed.
+
+(* ------------------------------------------------------------------ 6. run alone, an operation returns *)
+
+(* the state [seq_op] starts an operation in: the session as it is, no other operation *)
+Definition alone (reqauth : bool) (s : state) (h : hop) : state :=
+  {| refs := refs s; heap := heap s; owner := owner s; nextp := nextp s;
+     threads := [mk_thread reqauth (h_id h) (h_op h, h_script h)] |}.
+
+Lemma inv_alone : forall reqauth s h, owner s = ∅ -> inv (alone reqauth s h).
+Proof.
+  intros reqauth s h Ho. unfold inv, alone. cbn. rewrite Ho. split.
+  - intros i th Hi. destruct i as [|i]; cbn in Hi; [|try rewrite lookup_nil in Hi; discriminate].
+    injection Hi as <-. unfold tinv, mk_thread. cbn. split; [apply wf_prog_of|]. split; [constructor|].
+    intro p. rewrite lookup_empty. split; [intros [] | discriminate].
+  - intros p j H. rewrite lookup_empty in H. discriminate.
+Qed.
+
+Lemma total_alone : forall reqauth s h, total_ok (alone reqauth s h) (2 * DEPTH + 1).
+Proof.
+  intros. exists [(2 * DEPTH + 1)%nat]. split; [|simpl; lia].
+  unfold alone. cbn [threads]. constructor; [|constructor].
+  exists DEPTH. split; [apply depth_prog_of | reflexivity].
+Qed.
+
+Lemma run_alone_done : forall fuel s W th0,
+  inv s -> total_ok s W -> (W < fuel)%nat -> threads s = [th0] ->
+  exists th, threads (run_alone fuel s 0) = [th] /\ is_done th = true /\ inv (run_alone fuel s 0).
+Proof.
+  induction fuel as [|fuel IH]; intros s W th0 I T Hlt Hth; [lia|]. cbn [run_alone].
+  destruct (step s 0) as [s'|] eqn:E.
+  - destruct (step_total _ _ _ _ T E) as (W' & HW & T').
+    assert (Hth' : exists th1, threads s' = [th1]).
+    { assert (Hj : threads s !! 0%nat = Some th0) by (rewrite Hth; reflexivity).
+      destruct T as (ws & HF & _). destruct (Forall2_lookup_l _ _ _ _ _ HF Hj) as (w & _ & Hok).
+      destruct (step_thread_weight _ _ _ _ _ Hj Hok E) as (th' & _ & Ht & _). rewrite Ht, Hth. eexists. reflexivity. }
+    destruct Hth' as [th1 Hth1].
+    apply (IH s' W' th1 (inv_step _ _ _ I E) T'); [lia | exact Hth1].
+  - (* thread 0 cannot move: it has returned, for otherwise [progress] finds a mover, and there is no one else *)
+    exists th0. split; [exact Hth|]. split; [|exact I].
+    destruct (is_done th0) eqn:Hd; [reflexivity|]. exfalso.
+    destruct (progress s I) as (j & s' & Hs).
+    { exists 0%nat, th0. split; [rewrite Hth; reflexivity | exact Hd]. }
+    destruct j as [|j]; [congruence|].
+    unfold step in Hs. rewrite Hth in Hs. cbn in Hs. try rewrite lookup_nil in Hs. discriminate.
+Qed.
+
+(* between operations no mutex is held; from such a state every operation, run alone, returns - the
+   sequential semantics [seq_op] used by [lin_check] is total - and leaves every mutex free again *)
+Lemma seq_op_returns : forall reqauth s h,
+  owner s = ∅ ->
+  exists r cs, snd (seq_op reqauth s h) = Some (r, cs) /\ owner (fst (seq_op reqauth s h)) = ∅.
+Proof.
+  intros reqauth s h Ho. unfold seq_op. fold (alone reqauth s h).
+  destruct (run_alone_done seq_fuel (alone reqauth s h) (2 * DEPTH + 1)
+              (mk_thread reqauth (h_id h) (h_op h, h_script h))
+              (inv_alone reqauth s h Ho) (total_alone reqauth s h)) as (th & Hth & Hd & I).
+  { unfold seq_fuel, DEPTH. lia. }
+  { reflexivity. }
+  cbn [fst snd]. rewrite Hth. cbn. unfold is_done in Hd. unfold result_of.
+  destruct (t_prog th) as [r| | | | | | | | | |] eqn:Hp; try discriminate.
+  exists r, (rev (t_calls th)). split; [reflexivity|].
+  apply map_eq. intro p. rewrite lookup_empty.
+  apply (quiescent_unlocked _ p I). intros i th' Hi. rewrite Hth in Hi.
+  destruct i as [|i]; cbn in Hi; [|try rewrite lookup_nil in Hi; discriminate]. injection Hi as <-.
+  unfold is_done. rewrite Hp. reflexivity.
+Qed.
